@@ -59,8 +59,7 @@ carquet_status_t carquet_byte_stream_split_decode_float(
         return CARQUET_ERROR_INVALID_ARGUMENT;
     }
 
-    size_t required_size = (size_t)count * sizeof(float);
-    if (data_size < required_size) {
+    if (count < 0 || (uint64_t)count > data_size / sizeof(float)) {  /* by division: the product may not fit in size_t */
         return CARQUET_ERROR_DECODE;
     }
 
@@ -108,8 +107,7 @@ carquet_status_t carquet_byte_stream_split_decode_double(
         return CARQUET_ERROR_INVALID_ARGUMENT;
     }
 
-    size_t required_size = (size_t)count * sizeof(double);
-    if (data_size < required_size) {
+    if (count < 0 || (uint64_t)count > data_size / sizeof(double)) {  /* by division: the product may not fit in size_t */
         return CARQUET_ERROR_DECODE;
     }
 
@@ -163,8 +161,7 @@ carquet_status_t carquet_byte_stream_split_decode(
         return CARQUET_ERROR_INVALID_ARGUMENT;
     }
 
-    size_t required_size = (size_t)count * (size_t)type_length;
-    if (data_size < required_size) {
+    if (count < 0 || (uint64_t)count > data_size / (size_t)type_length) {  /* by division: the product may not fit in size_t */
         return CARQUET_ERROR_DECODE;
     }
 
